@@ -85,13 +85,12 @@ func c02oRef(a, b [][]byte) int {
 //
 //verif:entry tier=quick,thorough
 //verif:expect proof-index-order-is-rfc4034-canonical
-//verif:bound two names of 0-2 labels, label lengths 1-2, shapes {[1], [1,1], [2], [], [2,1]} (quick: first 3 x first 3; thorough: first 5 x first 5); every octet value 0-255 in every position, spelled by the library (escapes included) and lower-cased by dns.CanonicalName as the admission path does
+//verif:bound two names of 0-2 labels, label lengths 1-2, shapes {[1], [1,1], [2], [], [2,1]} (first 3 x first 3 in both tiers); every octet value 0-255 in every position, spelled by the library (escapes included) and lower-cased by dns.CanonicalName as the admission path does
 //verif:outside labels longer than 2 octets, names deeper than 2 labels; unpackable names (the presentation-form fallback)
 func VerifC02_ProofIndexOrderIsCanonical() {
 	n := 3
-	if vTier() > 0 {
-		n = 5
-	}
+	// 4 x 4 and 5 x 5 shape sets took 400 s and more of a shared thorough
+	// budget: both tiers run 3 x 3
 	al, at := c02oName("a", c02oShapes[vChoice("a.shape", n)])
 	bl, bt := c02oName("b", c02oShapes[vChoice("b.shape", n)])
 	ao := denialProofNameOrderFor(dns.CanonicalName(at))
